@@ -625,14 +625,68 @@ func exec(line string, st *hx.Stats) string {
 	engine := t.Int()
 	ops := parseOps(t)
 	inter := runOps(backend, engine, ops, nil)
+	solos := make([][]string, 3)
+	for s := 0; s < 3; s++ {
+		solos[s] = runOps(backend, engine, ops, map[int]bool{s: true})
+	}
+	// An engine answer that is not stable by itself (Check / ListObjects / ListUsers findings F2, V2-E, LU-C: the
+	// same question on the same store answered differently from call to call) says nothing about isolation.  Before
+	// reporting a difference between the interleaved and the solo run, both are repeated: a position whose answers
+	// vary WITHIN one configuration is marked "N" on both sides (counted, not compared).
+	pos := func(s int) []int { // indexes in ops of store s's operations, in order
+		var ix []int
+		for i, o := range ops {
+			if o.s == s {
+				ix = append(ix, i)
+			}
+		}
+		return ix
+	}
+	differs := false
+	for s := 0; s < 3 && !differs; s++ {
+		for j, i := range pos(s) {
+			if j < len(solos[s]) && solos[s][j] != inter[i] {
+				differs = true
+				break
+			}
+		}
+	}
+	if differs {
+		interRuns := [][]string{inter}
+		soloRuns := [][][]string{{solos[0]}, {solos[1]}, {solos[2]}}
+		for r := 0; r < 3; r++ {
+			interRuns = append(interRuns, runOps(backend, engine, ops, nil))
+			for s := 0; s < 3; s++ {
+				soloRuns[s] = append(soloRuns[s], runOps(backend, engine, ops, map[int]bool{s: true}))
+			}
+		}
+		for s := 0; s < 3; s++ {
+			for j, i := range pos(s) {
+				unstable := false
+				for _, run := range interRuns[1:] {
+					if i < len(run) && run[i] != inter[i] {
+						unstable = true
+					}
+				}
+				for _, run := range soloRuns[s][1:] {
+					if j < len(run) && j < len(solos[s]) && run[j] != solos[s][j] {
+						unstable = true
+					}
+				}
+				if unstable && j < len(solos[s]) {
+					inter[i], solos[s][j] = "N", "N"
+					st.Inc("unstable-engine-answer")
+				}
+			}
+		}
+	}
 	var sb strings.Builder
 	sb.WriteString("I")
 	for i, r := range inter {
 		fmt.Fprintf(&sb, " %d:%s", ops[i].s, r)
 	}
 	for s := 0; s < 3; s++ {
-		solo := runOps(backend, engine, ops, map[int]bool{s: true})
-		fmt.Fprintf(&sb, " | A%d %s", s, strings.Join(solo, " "))
+		fmt.Fprintf(&sb, " | A%d %s", s, strings.Join(solos[s], " "))
 	}
 	return sb.String()
 }
